@@ -99,6 +99,9 @@ func init() {
 			model.Op{K: model.OpRemoveEntity, E: 3}, model.Op{K: model.OpShrink}, // a freed relation table
 			model.Op{K: model.OpRemoveEntity, E: 4}, // an empty, not yet freed table; recycled ids
 			child(1),
+			// a non-relation archetype created after the relation archetype got several tables
+			// (archetype ids and table ids no longer coincide), populated at the time of the Reset
+			model.Op{K: model.OpNew, Path: model.PathMapN, Cs: ct.Of(ct.P, ct.Q)}, model.Op{K: model.OpNew, Path: model.PathMapN, Cs: ct.Of(ct.P, ct.Q)},
 			model.Op{K: model.OpOpen, F: 1, Q: 0}, model.Op{K: model.OpNext, Q: 0}, model.Op{K: model.OpClose, Q: 0},
 		)
 		lean := []model.Op{{K: model.OpObserve, O: model.EvRemoveRelations}, nP, child(0)}
